@@ -106,6 +106,12 @@ def one_history(res, rng, files, api):
         pn.update({77: 'stale'})
     for i, f in enumerate(files):
         where = f'parse {i + 1}/{len(files)} via {api} ({f["kind"]})'
+        if i and rng.random() < 0.4:
+            # between two parses the shared tables are written by their other users (the trace decoders)
+            target = (top.threads_pids, top.pids_names) if api == 'top' else (tp, pn)
+            target[0][rng.choice((1, 2, 77, rng.getrandbits(40)))] = rng.randrange(1, 50)
+            target[1][rng.randrange(1, 50)] = 'written-between-parses'
+            res.count('tables_dirtied_between_parses')
         if api == 'top':
             events, exc = drive(lambda: top.kevents(io.BytesIO(f['data'])))
             tables = (top.threads_pids, top.pids_names)
@@ -141,6 +147,28 @@ def run(ctx):
                 else:
                     files.append(gen.gen_v2(rng, first_nonzero=True))
             one_history(res, rng, files, rng.choice(('top', 'dicts')))
+        # related thread maps on one object: the same tid->pid relation with other names, the same tids with other pids,
+        # a subset, a superset (only the keys / only the values differ from what the tables already hold)
+        for h in range(ctx.pick(40, 1200)):
+            base = gen.gen_threadmap(rng, rng.choice((1, 2, 3, 6)))
+            files = []
+            for step in range(rng.randrange(2, 5)):
+                kind = rng.choice(('same', 'renamed', 'repid', 'subset', 'superset'))
+                entries = list(base)
+                if kind == 'renamed':
+                    entries = [(t, p, rng.choice(gen.NAMES), j) for t, p, n, j in entries]
+                elif kind == 'repid':
+                    entries = [(t, rng.randrange(1, 60), n, j) for t, p, n, j in entries]
+                elif kind == 'subset':
+                    entries = entries[:max(0, len(entries) - 1)]
+                elif kind == 'superset':
+                    entries = entries + gen.gen_threadmap(rng, 1)
+                recs = gen.gen_records(rng, rng.randrange(0, 4), first_nonzero=True)
+                pad = rng.choice((0, 8))
+                files.append({'kind': 'v2', 'entries': entries, 'pad': pad, 'records': recs,
+                              'data': wire.v2_file(entries, pad, recs)})
+            one_history(res, rng, files, rng.choice(('top', 'dicts')))
+            res.count('related_map_histories')
         # stratified shapes: every padding x small m, records beginning with zero bytes at positions >= 2
         for pad in (0, 1, 7, 8, 63, 64, 65, 127, 128, 4096):
             for m in (0, 1, 2, 3):
@@ -193,6 +221,7 @@ def run(ctx):
                         'padding) is accepted under either']
     res.require('parses_checked', 10)
     res.require('histories_with_reuse', 1)
+    res.require('related_map_histories', 10)
     res.require('contract_evaluations', 1)
     return res
 
